@@ -328,7 +328,7 @@ func (fr *Frame) execBody(st0 *State, reach0 string) (*State, []Term, string) {
 		g.fail("function %s has no body", fn)
 	}
 	if fr.parent == nil && fr.contract != nil {
-		for _, gs := range fr.contract.GhostSets {
+		for _, gs := range append(append([]GhostLoopVar(nil), fr.contract.GhostSets...), fr.contract.GhostRets...) {
 			g.getGhost(st0, gs.Name, "Nil") // materialise the ghost heap so that old() sees the same symbol
 		}
 	}
@@ -1205,6 +1205,11 @@ func (g *Gen) VerifyFunction(fn *ssa.Function) (err error) {
 		}
 		if len(names) > 0 {
 			env.vars["result"] = env.vars[names[0]]
+		}
+		// ghost statements executed at the return
+		for _, gs := range fc.GhostRets {
+			t, _ := env.tr(gs.Init)
+			g.setGhost(r.st, gs.Name, "Nil", t.S)
 		}
 		for i, en := range fc.Ensures {
 			label := en.Label
